@@ -36,8 +36,8 @@ CHECKS = {
     ),
     "C20": dict(
         engine="E2-primitive-explorer",
-        technique="exhaustive enumeration of all arrays over a 6-value magnitude alphabet (<=5 cells) x all choice-axis subsets x all contiguous segmentations x scales on the real aggregation functions; extended-precision reference",
-        text="_calculate_emax_extreme_value_shocks and _segment_logsumexp are evaluated on every array over {-1e6,-3,0,1e-3,2,1e6} for every shape with <= 5 cells (structured arrays for larger shapes), every non-empty choice-axis subset, every contiguous segmentation of <= 5 rows, 9 scales from 1e-6 to 1e3 and 3 shifts; each result must be finite, equal the longdouble log-sum-exp to 1e-9, lie in [max, max+s*log n], obey the shift law and the s->0 limit, and segment layout must equal axis layout.",
+        technique="exhaustive enumeration of all arrays over a 6-value magnitude alphabet (<=5 cells) x all choice-axis subsets x all contiguous segmentations x scales, plus all ordered pairs of same-size segmentations as call sequences, on the real aggregation functions; extended-precision reference",
+        text="_calculate_emax_extreme_value_shocks and _segment_logsumexp are evaluated on every array over {-1e6,-3,0,1e-3,2,1e6} for every shape with <= 5 cells (structured arrays for larger shapes), every non-empty choice-axis subset, every contiguous segmentation of <= 5 rows, 9 scales from 1e-6 to 1e3 and 3 shifts; each result must be finite, equal the longdouble log-sum-exp to 1e-9, lie in [max, max+s*log n], obey the shift law and the s->0 limit, and segment layout must equal axis layout; every ordered pair of distinct segmentations with equal row and segment counts is aggregated back to back in one process and both results are compared with the reference.",
         note="numpy.longdouble reference; magnitudes <= 1e6",
         design="§4 C20",
     ),
@@ -57,8 +57,8 @@ CHECKS = {
     ),
     "C16": dict(
         engine="E2-primitive-explorer",
-        technique="exhaustive enumeration of all (start, stop, n_points) triples over a 20x20x10 alphabet of numeric and non-numeric values for both grid classes, and of all dataclasses with 1-3 fields over an 11-value alphabet, on the real constructors",
-        text="All 8000 constructions of LinspaceGrid/LogspaceGrid over the alphabet (negative, zero, fractional, large, non-finite, bool, numpy scalar, string, None, complex) and all 1463 category dataclasses (plus non-dataclasses) are executed: each must raise GridInitializationError or materialise to exactly n finite, strictly increasing, equally spaced values with the specified end points; discrete grids must be accepted iff the field values are numerically 0,1,2,... in declaration order and then materialise to these codes. No other exception type is tolerated.",
+        technique="exhaustive enumeration of all (start, stop, n_points) triples over a 20x20x10 alphabet of numeric and non-numeric values for both grid classes, of every n_points in 2..64 (256) x all ordered pairs of 11 finite bounds, and of all dataclasses with 1-3 fields over an 11-value alphabet, on the real constructors",
+        text="All 8000 constructions of LinspaceGrid/LogspaceGrid over the alphabet (negative, zero, fractional, large, non-finite, bool, numpy scalar, string, None, complex) and all 1463 category dataclasses (plus non-dataclasses) are executed: each must raise GridInitializationError or materialise to exactly n finite, strictly increasing, equally spaced values with the specified end points; discrete grids must be accepted iff the field values are numerically 0,1,2,... in declaration order and then materialise to these codes. No other exception type is tolerated. A size sweep materialises every n_points from 2 to 64 (thorough: 256) for every ordered pair of 11 finite bounds (incl. non-dyadic) and requires exact end points for linear grids.",
         note="tolerances follow the precision of the returned array (bool bounds make jnp compute in float32); sub-normal bounds outside the alphabet",
         design="§4 C16",
     ),
